@@ -4,5 +4,5 @@ CONSTANTS
   THOROUGH = FALSE
   GEN = FALSE
   PaySizes = {0, 1, 2, 3, 7, 8, 9, 1231, 1232, 1233, 65527, 65528, 65535, 65536, 131072}
-INVARIANTS InvNoSilentTruncation InvSizeAnnounced InvClosedForm InvSelfCanonical Emit
+INVARIANTS Emit InvNoSilentTruncation InvSizeAnnounced InvClosedForm InvSelfCanonical
 CHECK_DEADLOCK FALSE
